@@ -4,6 +4,26 @@
 #include "place_global/density_grid.hpp"
 
 namespace coloquinte {
+#ifdef COLOQUINTE_VERIF
+#define COLOQUINTE_VERIF_HAS_H4 1
+namespace verif {
+/**
+ * @brief Verification hook (H4): when non-null, called by DensityLegalizer with
+ * every redistribution call and every level change its passes make. kind/args:
+ *   "rebisect" x1 y1 x2 y2      on entry of rebisect
+ *   "reoptimize" (x y)*         on entry of reoptimize (the bin candidates)
+ *   "improveXTransport"         on entry
+ *   "improveYTransport"         on entry
+ *   "end"                       when the call announced last returns
+ *   "refineX" | "refineY"       after refine() changed the level
+ *   "coarsenX" | "coarsenY"     after runCoarsening() changed the level
+ *   "coarsenChoice" doX doY     each iteration of the first loop of
+ *                               runCoarsening (the float-dependent decision)
+ */
+extern void (*onDensityLegalizerOp)(const char *kind, const int *args,
+                                    int nbArgs);
+}  // namespace verif
+#endif
 /**
  * Representation of an almost legalized placement, where density constraints
  * are met per bin
